@@ -389,7 +389,30 @@ def _run_reuse(case):
             obs.append({"key": f"mini-{name}|sim[P1,V]", "digest": frames[0] if frames else "", "history": ["sim(P1,V)"]})
         except Exception as e:
             viols.append(violation("history", "reuse", "EXC:" + type(e).__name__, f"mini model {name}: reusing the value arrays returned by solve in several simulate calls failed: {str(e)[:300]}"))
-    return outcome(status="violation" if viols else "ok", violations=viols[:2], states=len(minis), transitions=n_calls, traces=len(minis), digest=digest([o["digest"] for o in obs]), obs=obs)
+    # additional targets that depend on NO simulated variable (constant auxiliary chain with own parameters):
+    # the user's params dict reaches the wrapped functions directly on this path and must not be modified
+    try:
+        src = ("def kbase(minimum):\n    return 2.0 * minimum\n\ndef kpens(kbase, rate):\n    return kbase * rate + 0.1\n\n"
+               "def utility(w, c, kpens, a):\n    return jnp.log(c) + a * 0.01 * w + 0.02 * kpens\n\ndef next_w(w, c):\n    return 0.95 * (w - c) + 1.1\n\n"
+               "def c_constraint(c, w):\n    return c <= w + 0.2371")
+        funcs = ["kbase", "kpens", "utility", "next_w", "c_constraint"]
+        model = family.exec_model(family.assemble(3, src, [("w", "Lin(1, 6, 5)")], [("c", "Lin(0.5, 3.0, 7)")], funcs))
+        for leaf in ("python", "numpy", "jax"):
+            conv = {"python": lambda x: x, "numpy": _as_numpy, "jax": _as_jax}[leaf]
+            P = conv({"beta": 0.9, "kbase": {"minimum": 1.5}, "kpens": {"rate": 0.4}, "utility": {"a": 1.3}, "next_w": {}, "c_constraint": {}})
+            sas, _ = get_lcm_function(model, targets="solve_and_simulate", debug_mode=False)
+            before = _snapshot(P)
+            fr = sas(P, initial_states={"w": jnp.asarray([1.0, 2.5, 4.0])}, additional_targets=["kpens", "kbase"])
+            n_calls += 1
+            if _snapshot(P) != before:
+                viols.append(violation("inputs-unmodified", "call", "MUTATION", f"simulate(additional_targets=['kpens', 'kbase']) modified the params pytree ({leaf} leaves): keys now { {k: sorted(v) if isinstance(v, dict) else None for k, v in P.items()} }"))
+                break
+            if not np.allclose(fr["kpens"].to_numpy(dtype=np.float64), 2.0 * 1.5 * 0.4 + 0.1):
+                viols.append(violation("history-independence", "call", "VALUE", "constant additional target kpens has the wrong value"))
+                break
+    except Exception as e:
+        viols.append(violation("history", "const-targets", "EXC:" + type(e).__name__, f"additional targets without simulated inputs: {str(e)[:300]}"))
+    return outcome(status="violation" if viols else "ok", violations=viols[:2], states=len(minis) + 1, transitions=n_calls, traces=len(minis) + 1, digest=digest([o["digest"] for o in obs]), obs=obs)
 
 
 def run_case(case):
